@@ -154,6 +154,19 @@ def run_build(case, drv):
     pn = [gen.lab(x) for x in names]
     if cpd.variables != [pn[case["child"]]] + [pn[p] for p in case["parents"]]:
         return fail(f"declared evidence order not kept: {cpd.variables}")
+    # reading single entries by state NAME (get_value) - names are names, also integer ones that look like state numbers
+    sc_ = [case["child"]] + case["parents"]
+    if all(isinstance(pn[v], str) for v in sc_):
+        for obj_name, obj in (("cpd", cpd), ("copy", cpd.copy()), ("to_factor", cpd.to_factor())):
+            for k_, asg in enumerate(core.all_assignments(m["f"]["scope"], m["f"]["card"])):
+                if k_ % 3 and k_ > 6:
+                    continue
+                try:
+                    got = float(obj.get_value(**{pn[v]: gen.lab(labels[v][asg[v]]) for v in sc_}))
+                except Exception as e:
+                    return fail(f"{obj_name}.get_value by state names raised {type(e).__name__}: {e}")
+                if not core.close(got, core.model_value(m["f"], asg)):
+                    return fail(f"{obj_name}.get_value({ {pn[v]: labels[v][asg[v]] for v in sc_} }) = {got}, table entry {float(core.model_value(m['f'], asg))}")
     s0 = snapshot(cpd)
     fct = cpd.to_factor()
     err = compare_factor(fct, m["f"], names, card, labels)
